@@ -39,6 +39,7 @@ int main(int argc, char** argv) {
     int order = (int)c.geti("order", 0);
     verif::ctl() = verif::Ctl();
     verif::ctl().no_screen = c.geti("noscreen", 0) == 1; verif::ctl().no_screen_api = c.geti("noscreen", 0) == 2;
+    verif::ctl().no_screen_prim = c.geti("noscreen", 0) == 3; verif::ctl().no_screen_l = c.geti("noscreen", 0) == 4;
     double stretch = c.getd("init_stretch", 1.0);
     ECPIntegrator I; setup(I, c, stretch); I.init(order);
     if (stretch != 1.0) {
